@@ -144,6 +144,7 @@ func runC13(c *Ctx) {
 	}
 	if fn := w.methodOfNamed(client, "Wait"); fn != nil && fn.Blocks != nil {
 		checkStringReply(c, fn, "client.Wait")
+		c.Check(clientWaitCarriesCode(w, fn), "R2.passthrough", "client.Wait|code sent as the second request byte", w.FnPos(fn), "append([]byte{wait}, code)", "the wait request does not carry the caller's code as one byte (a string(code) conversion encodes codes above 127 as two bytes)")
 	}
 	for _, name := range []string{"ReadSlot", "AttestSlot"} {
 		fn := w.methodOfNamed(client, name)
